@@ -144,10 +144,10 @@ def dmrg_matvec_python(A, x, y0 = None, nswp = 20, eps = 1e-12, rmax = 32768, ki
               else:
                   delta_cores[k] = 0
                 
-              if delta_cores[k]/delta_cores_prev[k] >= 1 and delta_cores[k]>eps:
+              if delta_cores[k] >= delta_cores_prev[k] and delta_cores[k]>eps:
                   r_enlarge[k] += 1
                   
-              if delta_cores[k]/delta_cores_prev[k] < 0.1 and delta_cores[k]<eps:
+              if delta_cores[k] < 0.1*delta_cores_prev[k] and delta_cores[k]<eps:
                   r_enlarge[k] = max(1,r_enlarge[k]-1)
               
               # SVD 
@@ -328,10 +328,10 @@ def dmrg_hadamard_python(z, x, y0 = None, nswp = 20, eps = 1e-12, rmax = 32768, 
               else:
                   delta_cores[k] = 0
                 
-              if delta_cores[k]/delta_cores_prev[k] >= 1 and delta_cores[k]>eps:
+              if delta_cores[k] >= delta_cores_prev[k] and delta_cores[k]>eps:
                   r_enlarge[k] += 1
                   
-              if delta_cores[k]/delta_cores_prev[k] < 0.1 and delta_cores[k]<eps:
+              if delta_cores[k] < 0.1*delta_cores_prev[k] and delta_cores[k]<eps:
                   r_enlarge[k] = max(1,r_enlarge[k]-1)
               
               # SVD 
